@@ -8,7 +8,8 @@ Guards(e) ==
     {<<"G_C19_OfferedCertified", e.out.ok /\ e.out.bothRoundsOk>>,
      <<"G_C19_NoPrivateOnWire", e.out.wirePrivHits = 0>>,
      \* the detector is only meaningful if it knows the private keys and finds their public halves on the wire
-     <<"G_C19_DetectorSane", e.out.ok => (e.out.privateKeysKnown >= 3 /\ e.out.publicHalvesSeenOnWire >= 3)>>,
+     <<"G_C19_DetectorSane", e.out.ok => LET n == IF e.case.mode = "password_noed" THEN 2 ELSE 3 IN
+                                          (e.out.privateKeysKnown >= n /\ e.out.publicHalvesSeenOnWire >= n)>>,
      <<"G_C19_PrivateFilesRestricted", \A i \in DOMAIN e.out.files :
             e.out.files[i].private => e.out.files[i].mode = (IF e.out.files[i].dir THEN 448 ELSE 384)>>,
      \* (an agent that refuses every removal keeps the duplicates it was seeded with: judged by NewReplacesOld alone)
@@ -16,7 +17,9 @@ Guards(e) ==
      \* after either installation: no certificate the client put into the agent sits beside another entry of its label
      <<"G_C19_NewReplacesOld", e.out.addedBeside = 0>>,
      \* an agent that takes certificates (possibly only without a lifetime) ends up holding them
-     <<"G_C19_AgentGetsCerts", (e.case.agent /\ e.case.agentmode \in {"ok", "nolifetime", "noremove_once"} /\ e.out.ok) => e.out.ownLabels >= 2>>,
+     <<"G_C19_AgentGetsCerts", (e.case.agent /\ e.case.agentmode \in {"ok", "nolifetime", "noremove_once"} /\ e.out.ok) =>
+            \* (a server without the second CA key certifies no Ed25519 key: one certificate then)
+            e.out.ownLabels >= (IF e.case.mode = "password_noed" THEN 1 ELSE 2)>>,
      \* an agent that takes nothing, or cannot make room under the (seeded) labels: the keys go to files (which the restricted-mode guard then judges)
      <<"G_C19_FallbackToFiles", (e.out.ok /\ (~e.case.agent \/ e.case.agentmode \in {"refuse", "noremove"})) => e.out.privateFiles >= 2>>,
      \* replacing is by label: what another tool put into the agent stays
